@@ -4,6 +4,7 @@
 #include <INTEGER.h>
 #include <NativeInteger.h>
 #include <spec/x690.h>
+#include <limits.h>
 #define VF_CB_CAP 16
 #include <vf_cb.h>
 #include "ber_tlv_tag.c"
@@ -76,6 +77,27 @@ void h_NativeInteger_decode_ber(void) {
 	if(!uns && size >= 2 && buf[0] == 0x02 && buf[1] >= 1 && buf[1] <= 8 && size < 2u + buf[1] && out)
 		__CPROVER_assert(rv.code == RC_WMORE, "C05: a truncated INTEGER wants more");
 	free(out);
+}
+
+/* unsigned native field (INTEGER (0..MAX) -> unsigned long): DER must be the non-negative INTEGER, same bytes as the wide type */
+#ifndef VF_FINDING_D21
+#define VF_FINDING_D21 0
+#endif
+void h_NativeInteger_der_unsigned(void) {
+	VF_SCALAR(unsigned long, v);
+	VF_FINDING(VF_FINDING_D21, v > (unsigned long)LONG_MAX);
+	asn_INTEGER_specifics_t specs; memset(&specs, 0, sizeof(specs)); specs.field_width = sizeof(long); specs.field_unsigned = 1;
+	asn_TYPE_descriptor_t td = asn_DEF_NativeInteger; td.specifics = &specs;
+	int key = 0;
+	asn_enc_rval_t er = NativeInteger_encode_der(&td, &v, 0, 0, vf_cb, &key);
+	VF_CANARY();
+	size_t L = spec_uint_len(v);
+	__CPROVER_assert(er.encoded == (ssize_t)(2 + L) && vf_cb_bytes == 2 + L, "C02/C13: tag, length and minimal non-negative contents (9 octets for values >= 2^63)");
+	__CPROVER_assert(vf_cb_log[0] == 0x02 && vf_cb_log[1] == L && VF_OCT_EQ(vf_cb_log + 2, L, spec_uint_octet, v), "C02/C13: an unsigned native value encodes as the non-negative INTEGER (same bytes as asn_ulong2INTEGER + INTEGER_encode_der)");
+	unsigned long *back = 0;
+	asn_codec_ctx_t ctx; memset(&ctx, 0, sizeof(ctx));
+	asn_dec_rval_t rv = NativeInteger_decode_ber(&ctx, &td, (void **)&back, vf_cb_log, vf_cb_bytes, 0);
+	if(back) { __CPROVER_assert(rv.code == RC_OK && rv.consumed == vf_cb_bytes && *back == v, "C01: decode(encode(v)) == v"); free(back); }
 }
 
 VF_NATIVE_MAIN
